@@ -76,9 +76,13 @@ func measure(env container.Environment) map[string]any {
 	return m
 }
 
+var devNull, selfExe *os.File
+
 func main() {
 	hx.Init()
 	scratch := os.Getenv("VERIF_SCRATCH")
+	devNull, _ = os.OpenFile("/dev/null", os.O_RDWR, 0)
+	selfExe, _ = os.Open(hx.Target())
 	limit := runner.Limit{TimeLimit: 20 * time.Second, MemoryLimit: runner.Size(1 << 30)}
 	hx.Cases(func(c map[string]any) map[string]any {
 		token := c["token"].(string)
@@ -103,6 +107,11 @@ func main() {
 				args = append(args, strings.ReplaceAll(a.(string), "TOKEN", token))
 			}
 			ctx, cancel := context.WithTimeout(context.Background(), time.Duration(hx.Int(op["timeout_ms"]))*time.Millisecond)
+			if op["bg"] == true {
+				// a context that outlives the run and is never cancelled (a service-wide context)
+				cancel()
+				ctx, cancel = context.Background(), func() {}
+			}
 			var res runner.Result
 			okRet := hx.Guard(15*time.Second, func() {
 				switch op["kind"].(string) {
@@ -119,6 +128,13 @@ func main() {
 					os.RemoveAll(r.Root)
 				case "container":
 					p := container.ExecveParam{Args: append([]string{"/vb/probe_target"}, args...), Env: []string{"PATH=/usr/bin:/bin"}, SyncAfterExec: op["sync_after"] == true}
+					if op["files"] == true {
+						// descriptors travel with the command: whatever becomes of the run, none of them may stay behind in the container init
+						p.Files = []uintptr{devNull.Fd(), devNull.Fd(), devNull.Fd()}
+						if op["execfd"] == true {
+							p.ExecFile = selfExe.Fd()
+						}
+					}
 					if op["cb"] == "fail" {
 						p.SyncFunc = func(int) error { return fmt.Errorf("no") }
 					}
